@@ -21,7 +21,7 @@
    minimal, fully parenthesised and randomly spaced spelling. *)
 From Coq Require Import Floats.
 From JM Require Import Model.Base Model.Num Model.Value Model.JsonText Model.Lexer Model.Parser Model.Api
-     Spec.Grammar Spec.Semantics Proofs.ValueFacts Proofs.TablesOk Proofs.ParserTotal Proofs.ParserComplete Proofs.InterpRefine Proofs.LexText
+     Spec.Grammar Spec.Semantics Proofs.ValueFacts Proofs.TablesOk Proofs.ParserTotal Proofs.ParserComplete Proofs.InterpRefine Proofs.LexText Proofs.LexAdj
      Inst.FloatNum Run.Checker.
 From JM Require Import gen.Tables.
 
@@ -105,6 +105,37 @@ Theorem C03_compile_of_any_spaced_text :
     Api.compile (text_ws l) = Ok (compile e).
 Proof. exact (compile_text_ws lit_text lit_ok). Qed.
 
+(* ... and whitespace may be absent altogether wherever the next byte cannot extend
+   the token (adj_ok: a name is not followed by a letter, digit or underscore, a
+   number not by a digit, '[' not by '?' or ']', '|' '&' '!' '<' '>' not by the second
+   character of the longer operator), may precede the first token, and need not
+   follow the last: Compile on any such text of the tokens of e is compile e *)
+Theorem C03_compile_of_any_layout :
+  forall (e : expr) lead l, wp e = true -> npos e = true -> Forall wsc lead -> adj_ok l -> map fst l = render lit_text e ->
+    Api.compile (lead ++ text_ws l) = Ok (compile e).
+Proof. exact (compile_text_adj lit_text lit_ok). Qed.
+
+Theorem C03_layout_never_changes_the_ast :
+  forall (e : expr) lead1 l1 lead2 l2, wp e = true -> npos e = true ->
+    Forall wsc lead1 -> adj_ok l1 -> Forall wsc lead2 -> adj_ok l2 ->
+    map fst l1 = render lit_text e -> map fst l2 = render lit_text e ->
+    Api.compile (lead1 ++ text_ws l1) = Api.compile (lead2 ++ text_ws l2).
+Proof. exact (layout_insignificant lit_text lit_ok). Qed.
+
+(* the compact text (a space only where two tokens would run together) of every
+   well-precedenced tree compiles to the tree, and Search on any layout is eval *)
+Theorem C03_compile_of_compact_text :
+  forall e : expr, wp e = true -> npos e = true -> texty lit_text e = true ->
+    Api.compile (compact_text (render lit_text e)) = Ok (compile e).
+Proof. exact (compile_compact_text lit_text lit_ok). Qed.
+
+Theorem C03_search_of_any_layout :
+  forall (ord : obj -> obj), (forall m, Permutation.Permutation (ord m) m) ->
+  forall (e : expr) lead l d, wp e = true -> npos e = true -> Forall wsc lead -> adj_ok l -> map fst l = render lit_text e ->
+    sem_ok e = true -> plain d = true ->
+    Api.search ord (lead ++ text_ws l) d = eval ord e d.
+Proof. exact (search_text_adj lit_text lit_ok). Qed.
+
 (* fuel is immaterial: any two amounts that suffice give the same answer *)
 Theorem C03_fuel_independent :
   forall ts f f' bp i,
@@ -121,6 +152,10 @@ Print Assumptions C03_compile_of_text.
 Print Assumptions C03_search_of_text.
 Print Assumptions C03_whitespace_never_changes_the_ast.
 Print Assumptions C03_compile_of_any_spaced_text.
+Print Assumptions C03_compile_of_any_layout.
+Print Assumptions C03_layout_never_changes_the_ast.
+Print Assumptions C03_compile_of_compact_text.
+Print Assumptions C03_search_of_any_layout.
 Print Assumptions C03_fuel_independent.
 Print Assumptions C03_binding_powers_realise_the_levels.
 Print Assumptions C03_call_sites_pass_the_right_level.
@@ -154,4 +189,15 @@ Example C03_text_example :
   (wp e_text && npos e_text && texty mtext e_text &&
    bytes_eqb (expr_text mtext e_text) (str "a . * . ""b c"" . c | `""x\`y""` || [ -1 ] ") &&
    aobs_match false (aobs_of (Api.compile (expr_text mtext e_text))) (AOk (compile e_text)))%bool = true.
+Proof. vm_compute. reflexivity. Qed.
+
+(* the compact text of the same tree: no whitespace at all is needed here *)
+Example C03_compact_example :
+  (bytes_eqb (compact_text (render mtext e_text)) (str "a.*.""b c"".c|`""x\`y""`||[-1]") &&
+   aobs_match false (aobs_of (Api.compile (compact_text (render mtext e_text)))) (AOk (compile e_text)) &&
+   bytes_eqb (compact_text (render mtext (EAnd (ENot (idn "a")) (ECmp CmpLT (idn "b") (EIndex None 1))))) (str "!a&&b<[1]") &&
+   bytes_eqb (compact_text (render mtext (EPipe (idn "a") (EOr (idn "b") (idn "c"))))) (str "a|b||c") &&
+   bytes_eqb (compact_text [tk tPipe (str "|"); tk tPipe (str "|"); tk tLbracket (str "["); tk tRbracket (str "]"); tk tNot (str "!"); tk tEQ (str "==");
+                            tk tUnquotedIdentifier (str "a"); tk tNumber (str "1"); tk tNumber (str "2"); tk tUnquotedIdentifier (str "b")])
+             (str "| |[ ]! ==a 1 2b"))%bool = true.
 Proof. vm_compute. reflexivity. Qed.
